@@ -811,6 +811,91 @@ fn run_mutants(name: &str, program: &Program, thorough: bool, seed: u64, out_dir
 // ------------------------------------------------------------------------------------------------
 // worker: compile a batch of sources with one database, run them
 // ------------------------------------------------------------------------------------------------
+/// Gas-free compilation (H14_NO_GAS): only the self-checking `chk_*` functions are run, through the public API, without a
+/// gas counter (what `cairo-run` does without --available-gas).  Optimisation passes see different block structures
+/// without the gas statements, so this is a second compilation of the same sources, not a repetition.
+fn run_selfchecks_nogas(name: &str, crate_prefix: &str, program: &Program, thorough: bool, seed: u64, stats: &mut Stats, failures: &mut Vec<Failure>) {
+    let built = catch(AssertUnwindSafe(|| {
+        let b = RunnableBuilder::new(program.clone(), None).map_err(|e| format!("{e}"))?;
+        let r = SierraCasmRunner::new(program.clone(), None, Default::default(), None).map_err(|e| format!("{e}"))?;
+        Ok::<_, String>((b, r))
+    }));
+    let (builder, runner) = match built {
+        Ok(Ok(x)) => x,
+        Ok(Err(e)) => {
+            stats.configs_refused.push(format!("{name}[nogas]: {}", e.chars().take(120).collect::<String>()));
+            return;
+        }
+        Err(p) => {
+            failures.push(Failure { leg: "C02", program: name.to_string(), function: String::new(), args: String::new(), gas: None, solver: "nogas",
+                what: format!("building the runner panicked: {p} @ {}", last_panic_location()) });
+            return;
+        }
+    };
+    stats.configs_built += 1;
+    for func in &program.funcs {
+        let fname = func.id.to_string();
+        if !fname.starts_with(crate_prefix) {
+            continue;
+        }
+        let is_chk = fname.rsplit("::").next().map(|l| l.starts_with("chk_") && l.chars().all(|c| c.is_ascii_alphanumeric() || c == '_')).unwrap_or(false);
+        if !is_chk {
+            continue;
+        }
+        let mut shapes = vec![];
+        let mut ok = true;
+        for ty in &func.signature.param_types {
+            let g = &builder.type_long_id(ty).generic_id;
+            if !builder.is_user_arg_type(g) {
+                continue;
+            }
+            match shape_of(&builder, ty, 0) {
+                Some(s) => shapes.push(s),
+                None => ok = false,
+            }
+        }
+        if !ok {
+            continue;
+        }
+        stats.functions_runnable += 1;
+        let mut rng = Rng(seed ^ fnv(&fname) ^ fnv(name));
+        let n_vectors = if thorough { 40 } else { 8 };
+        for v in 0..n_vectors {
+            let mut args = vec![];
+            let mut shown = vec![];
+            for s in &shapes {
+                let mode = if v < 3 { v as u64 } else { rng.below(6) };
+                gen_args(s, mode, &mut rng, &mut args, &mut shown);
+            }
+            let shown = shown.join(", ");
+            stats.runs += 1;
+            let r = catch(AssertUnwindSafe(|| runner.run_function_with_starknet_context(func, args.clone(), None, StarknetState::default())));
+            let what = match r {
+                Ok(Ok(r)) => {
+                    stats.runs_ok += 1;
+                    stats.selfchecks += 1;
+                    if matches!(&r.value, RunResultValue::Success(v) if v.len() == 1 && v[0] == Felt252::from(1u8)) {
+                        continue;
+                    }
+                    format!(
+                        "a self-checking function (true for every argument by construction) returned {:?} (compiled without gas)",
+                        match &r.value {
+                            RunResultValue::Success(v) => format!("Success({:?})", v.iter().map(|f| f.to_string()).collect::<Vec<_>>()),
+                            RunResultValue::Panic(v) => format!("Panic({:?})", v.iter().map(|f| f.to_string()).collect::<Vec<_>>()),
+                        }
+                    )
+                }
+                Ok(Err(e)) => {
+                    stats.vm_errors += 1;
+                    format!("the run of a self-checking function failed (compiled without gas): {}", format!("{e}").chars().take(300).collect::<String>())
+                }
+                Err(p) => format!("the run of a self-checking function panicked (compiled without gas): {p} @ {}", last_panic_location()),
+            };
+            failures.push(Failure { leg: "C01", program: name.to_string(), function: fname.clone(), args: shown, gas: None, solver: "nogas", what });
+        }
+    }
+}
+
 fn worker_main(batch_file: &str, result_file: &str) {
     quiet_panics();
     let lim = libc::rlimit { rlim_cur: 12u64 << 30, rlim_max: 12u64 << 30 };
@@ -829,6 +914,11 @@ fn worker_main(batch_file: &str, result_file: &str) {
     // assert_eq! & co (bug samples are written as tests) and the starknet plugin (contracts)
     b.with_default_plugin_suite(cairo_lang_test_plugin::test_assert_suite());
     b.with_default_plugin_suite(cairo_lang_starknet::starknet_plugin_suite());
+    // H14_NO_GAS=1: compile as `cairo-run` does without --available-gas (no automatic withdraw_gas, cfg gas: "disabled")
+    if std::env::var("H14_NO_GAS").is_ok() {
+        b.skip_auto_withdraw_gas();
+        b.with_cfg(cairo_lang_filesystem::cfg::CfgSet::from_iter([cairo_lang_filesystem::cfg::Cfg::kv("gas", "disabled")]));
+    }
     let mut db = b.build().expect("RootDatabase");
     init_dev_corelib(&mut db, PathBuf::from(corelib()));
     for f in &files {
@@ -889,6 +979,10 @@ fn worker_main(batch_file: &str, result_file: &str) {
             }
         }
         if std::env::var("H14_COMPILE_ONLY").is_ok() {
+            continue;
+        }
+        if std::env::var("H14_NO_GAS").is_ok() {
+            run_selfchecks_nogas(&name, &format!("{name}::"), &program, thorough, seed, &mut stats, &mut failures);
             continue;
         }
         run_program(&name, &format!("{name}::"), &program, false, thorough, seed, &mut stats, &mut failures);
